@@ -6,7 +6,7 @@ PLAN = {
                      "reset-without-order": 0.01, "import-source": 0.03, "equivalence-with-ids": 0.01, "variable-units-owned-by-model": 0.05,
                      "mutated:clone": 0.3, "mutated:original": 0.3, "probe-known": 0.03,
                      "foreign-reset-variable:Component::clone": 0.03, "foreign-reset-variable:Model::clone": 0.03, "foreign-reset-variable:other-component": 0.02,
-                     "foreign-reset-variable:parentless": 0.03, "foreign-reset-variable:unset": 0.03},
+                     "local-import-reference": 0.1, "foreign-reset-variable:parentless": 0.03, "foreign-reset-variable:unset": 0.03},
 }
 CLAIM = {
     "engine": "rapidcheck-tape",
